@@ -207,10 +207,15 @@ impl<'tcx> Dumper<'tcx> {
             ty::Array(inner, len) => {
                 let i = self.ty(inner);
                 let l = len.try_to_target_usize(tcx);
+                let lp = match len.kind() {
+                    ty::ConstKind::Param(p) => s(p.name.as_str()),
+                    _ => J::Null,
+                };
                 J::Obj(vec![
                     ("k", s("array")),
                     ("of", num(i)),
                     ("len", l.map(num).unwrap_or(J::Null)),
+                    ("len_param", lp),
                 ])
             }
             ty::Tuple(ts) => {
@@ -353,6 +358,17 @@ impl<'tcx> Dumper<'tcx> {
     fn const_value(&mut self, val: ConstValue, t: Ty<'tcx>) -> J {
         let tcx = self.tcx;
         // constants of struct / enum / tuple type: variant and fields (e.g. an associated const holding default options)
+        // constant arrays of enum / struct values (a lookup table of variants): element by element
+        if let ty::Array(elem, _) = t.kind() {
+            if matches!(elem.kind(), ty::Adt(..) | ty::Tuple(..)) && !matches!(val, ConstValue::ZeroSized) {
+                if let Some(d) = tcx.try_destructure_mir_constant_for_user_output(val, t) {
+                    if d.fields.len() <= 64 {
+                        let elems: Vec<J> = d.fields.iter().map(|(v, ft)| self.const_value(*v, *ft)).collect();
+                        return J::Obj(vec![("ty", num(self.ty(t))), ("array_const", J::Arr(elems))]);
+                    }
+                }
+            }
+        }
         if matches!(t.kind(), ty::Adt(..) | ty::Tuple(..)) && !matches!(val, ConstValue::ZeroSized) {
             if let ty::Adt(adt, _) = t.kind() {
                 if adt.is_union() {
@@ -462,6 +478,12 @@ impl<'tcx> Dumper<'tcx> {
                     ("promoted", num(p.index())),
                     ("def", s(self.key(uv.def))),
                 ]);
+            }
+        }
+        if let mir::Const::Ty(_, ct) = c.const_ {
+            if let ty::ConstKind::Param(p) = ct.kind() {
+                // a const generic parameter used as a value: resolved per instance by the engine
+                return J::Obj(vec![("ty", num(self.ty(t))), ("const_param", s(p.name.as_str()))]);
             }
         }
         match c.const_.eval(tcx, env, c.span) {
@@ -1086,6 +1108,18 @@ impl rustc_driver::Callbacks for Cb {
                         }
                     }
                 }
+            }
+            // names of the generic parameters in argument order (lifetimes left out, as in generic argument lists)
+            {
+                let g = tcx.generics_of(did);
+                let mut names = vec![];
+                for i in 0..g.count() {
+                    let p = g.param_at(i, tcx);
+                    if !matches!(p.kind, ty::GenericParamDefKind::Lifetime) {
+                        names.push(s(p.name.as_str()));
+                    }
+                }
+                o.push(("generics", J::Arr(names)));
             }
             o.push(("body", bj));
             o.push(("promoted", J::Arr(proms)));
